@@ -25,17 +25,25 @@ def native():
 
 
 def has_sub_ir(block):
-    from jaqalpaq.core import BlockStatement, LoopStatement
+    """Is a subcircuit block reachable from this block -- through nested blocks, loops and the
+    *definitions that macro calls refer to* (GateStatement.gate_def)?"""
+    from jaqalpaq.core import BlockStatement, LoopStatement, GateStatement, Macro
 
     stack = [block]
+    seen = set()
     while stack:
         s = stack.pop()
+        if id(s) in seen:
+            continue
+        seen.add(id(s))
         if isinstance(s, LoopStatement):
             stack.append(s.statements)
         elif isinstance(s, BlockStatement):
             if s.subcircuit:
                 return True
             stack.extend(s.statements)
+        elif isinstance(s, GateStatement) and isinstance(s.gate_def, Macro):
+            stack.append(s.gate_def.body)
     return False
 
 
@@ -278,7 +286,7 @@ def process(ctx, case, seen):
 def shard(ctx):
     rec = ctx.rec
     monitors.install_contracts()
-    n = ctx.scale(3000, 100000)
+    n = ctx.scale(9000, 100000)
     seen = {}
     i = 0
     while i < n and not rec.expired():
